@@ -20,7 +20,20 @@ from .core import INCONCLUSIVE, VIOLATION
 def _corpus(pid: str):
     from .selftest_corpus import CORPUS
 
-    return [v for v in CORPUS if v["prop"] == pid]
+    out = [v for v in CORPUS if v["prop"] == pid]
+    # confirmed changes written by independent sub-agents (kept under /verif/seeded/<id>/)
+    seeded = pathlib.Path(__file__).resolve().parent.parent / "seeded"
+    expect = {}
+    if (seeded / "EXPECT.json").exists():
+        import json
+
+        expect = json.loads((seeded / "EXPECT.json").read_text())
+    for d in sorted(seeded.glob("*/patch.diff")):
+        sid = d.parent.name
+        for prop, rules in expect.get(sid, {}).items():
+            if prop == pid:
+                out.append({"id": "seeded:" + sid, "prop": pid, "kind": "mutant", "patch": str(d), "expect": rules, "what": "independent seeded change " + sid})
+    return out
 
 
 def _apply(src_root: pathlib.Path, dst_root: pathlib.Path, edits) -> str | None:
@@ -44,17 +57,25 @@ def _run_variant(args):
 
     tmp = pathlib.Path(tempfile.mkdtemp(prefix="hmslint-st-"))
     try:
-        edits = variant.get("edits") or [(variant["file"], variant["old"], variant["new"])]
-        why = _apply(pathlib.Path(repo), tmp, edits)
-        if why is not None:
-            return {"id": variant["id"], "outcome": "skipped", "why": why}
-        try:
-            import ast
+        if "patch" in variant:
+            import subprocess
 
-            for file, _, _ in edits:
-                ast.parse((tmp / file).read_text())
-        except SyntaxError as e:
-            return {"id": variant["id"], "outcome": "broken-variant", "why": str(e)}
+            shutil.copytree(pathlib.Path(repo) / "pyhms", tmp / "pyhms", ignore=shutil.ignore_patterns("__pycache__"))
+            pr = subprocess.run(["patch", "-p1", "-s", "-f", "-d", str(tmp), "-i", variant["patch"]], capture_output=True, text=True)
+            if pr.returncode != 0:
+                return {"id": variant["id"], "outcome": "skipped", "why": "patch no longer applies: " + (pr.stdout + pr.stderr)[-200:]}
+        else:
+            edits = variant.get("edits") or [(variant["file"], variant["old"], variant["new"])]
+            why = _apply(pathlib.Path(repo), tmp, edits)
+            if why is not None:
+                return {"id": variant["id"], "outcome": "skipped", "why": why}
+            try:
+                import ast
+
+                for file, _, _ in edits:
+                    ast.parse((tmp / file).read_text())
+            except SyntaxError as e:
+                return {"id": variant["id"], "outcome": "broken-variant", "why": str(e)}
         try:
             ctx, mod, obs, docs, errors, extra, wall = run_property(pid, "quick", str(tmp))
         except Exception as e:  # noqa: BLE001
